@@ -265,7 +265,7 @@ def Chan.hasState (c : Chan) (v : Nat) : Bool :=
 
 /-- `close_channel` -/
 def Chan.close (c : Chan) (v : Nat) : Chan :=
-  if c.state = .id v false then { c with state := .closed } else c
+  if c.hasState v then { c with state := .closed } else c
 
 /-! ### sender side (`sender.rs`) -/
 
@@ -325,7 +325,7 @@ def Chan.trySend (c : Chan) (cap : Nat) (overflow : Bool) (e : Entry) : Chan × 
       | [] => ({ c with sub := [e] }, .ok none)               -- capacity 0 cannot be configured
       | old :: rest =>
         let c := { c with sub := rest ++ [e] }
-        if c.used.getD old.chunk false then ({ c with used := c.used.set old.chunk false }, .ok (some old.chunk))
+        if c.used.getD old.chunk false then (c, .ok (some old.chunk))
         else (c, .corrupted)
     else ({ c with sub := c.sub ++ [e] }, .ok none)
 
